@@ -363,6 +363,8 @@ def conforming(rng, t, hostile=0.0, size=3):
     if k == "int":
         return rng.choice([0, 1, -1, 7, 42, 10**12, -5, 2**53 + 1, 10**18 + 1, -(10**30)])
     if k == "float":
+        if hostile and rng.random() < hostile * 0.2:
+            return rng.choice([float("inf"), float("-inf"), float("nan")])  # JSON has no spelling for these
         return rng.choice([0.5, -1.25, 3.0, 1e-7, 2.5e10, 0.0, 100.125, 1e16, -4e21, 2e22, 1e300, 1.5e300, 5e-324, 1e-5, 123456789.125])
     if k == "bool":
         return rng.random() < 0.5
